@@ -22,6 +22,7 @@
 #include <syslog.h>
 #include <err.h>
 #include <zlib.h>
+#include <termios.h>
 
 time_t verif_time(time_t *t);
 int verif_rand(void);
@@ -39,6 +40,10 @@ int verif_uncompress(Bytef *dest, uLongf *destLen, const Bytef *source, uLong so
 int verif_system(const char *cmd);
 unsigned verif_sleep(unsigned s);
 void verif_exit(int code) __attribute__((noreturn));
+/* read_password() (common.c) runs unchanged: the terminal is substituted (op `main` of h_srv / h_cli) */
+int verif_fscanf(FILE *f, const char *fmt, ...);
+int verif_tcgetattr(int fd, struct termios *t);
+int verif_tcsetattr(int fd, int act, const struct termios *t);
 
 #define time(x) verif_time(x)
 #define rand() verif_rand()
@@ -55,4 +60,7 @@ void verif_exit(int code) __attribute__((noreturn));
 #define uncompress(a, b, c, d) verif_uncompress(a, b, c, d)
 #define system(x) verif_system(x)
 #define sleep(x) verif_sleep(x)
+#define fscanf(...) verif_fscanf(__VA_ARGS__)
+#define tcgetattr(a, b) verif_tcgetattr(a, b)
+#define tcsetattr(a, b, c) verif_tcsetattr(a, b, c)
 #endif
